@@ -112,6 +112,8 @@ def map [RMap f] (x : f α) (g : α → β) : f β := RMap.map x g
 
 def filter_map (l : List α) (g : α → Option β) : List β := l.filterMap g
 def find (l : List α) (p : α → Bool) : Option α := l.find? p
+def iter_any (l : List α) (p : α → Bool) : Bool := l.any p
+def iter_all (l : List α) (p : α → Bool) : Bool := l.all p
 def is_empty (l : List α) : Bool := l.isEmpty
 def len (l : List α) : Nat := l.length
 def first (l : List α) : Option α := l.head?
